@@ -435,3 +435,79 @@ impl Property for C19 {
         out
     }
 }
+
+/// Raw entry point for the byte-level fuzz target: byte 0 selects network / flag / spelling,
+/// the rest is the payload.
+pub fn fuzz_payload(data: &[u8]) -> Outcome {
+    let mut out = Outcome::default();
+    if data.is_empty() {
+        return out;
+    }
+    let sel = data[0];
+    let net = [Net::Mainnet, Net::Testnet, Net::Regtest][(sel % 3) as usize];
+    let api_enabled = sel & 0x80 == 0;
+    let req_net = if sel & 0x40 == 0 {
+        match net {
+            Net::Mainnet => 0,
+            Net::Testnet => 2,
+            Net::Regtest => 4,
+        }
+    } else {
+        (sel >> 3) % 6
+    };
+    let payload = data[1..].to_vec();
+    // send_transaction changes nothing but a counter: the canister is re-initialised only when
+    // the (network, flag) selection changes
+    thread_local! {
+        static CURRENT: std::cell::RefCell<Option<(Net, bool)>> = const { std::cell::RefCell::new(None) };
+    }
+    let need_reset = CURRENT.with(|c| *c.borrow() != Some((net, api_enabled)));
+    if need_reset {
+        let mut sc = SutConfig::new(net, 2);
+        sc.api_access = if api_enabled { Flag::Enabled } else { Flag::Disabled };
+        sut::reset(&sc);
+        CURRENT.with(|c| *c.borrow_mut() = Some((net, api_enabled)));
+    }
+    let (rn, names) = req_network(req_net);
+    let valid = is_exact_transaction(&payload);
+    let count_before = can::with_state(|s| s.metrics.send_transaction_count);
+    hooks::take_sent_transactions();
+    out.checks += 1;
+    let r = sut::guarded(|| futures::executor::block_on(can::send_transaction(SendTransactionRequest { network: rn, transaction: payload.clone() })));
+    let count_after = can::with_state(|s| s.metrics.send_transaction_count);
+    let sent = hooks::take_sent_transactions();
+    let expect_refusal = !api_enabled || names != net;
+    let desc = format!("fuzz payload {} on {:?} (api {}), request names {:?}", hex::encode(&payload[..payload.len().min(200)]), net, api_enabled, names);
+    if expect_refusal {
+        if r.is_ok() || !sent.is_empty() || count_after != count_before {
+            out.fail(format!("{desc}: a call that must be refused was not refused without effect"));
+        }
+        return out;
+    }
+    match r {
+        Err(p) => out.fail(format!("{desc}: trapped: {p}")),
+        Ok(Ok(())) => {
+            if !valid {
+                out.fail(format!("{desc}: accepted a payload that is not exactly one serialised transaction"));
+            }
+            if count_after != count_before + 1 || sent.len() != 1 || sent[0].transaction != payload || sent[0].network != net.ic() {
+                out.fail(format!("{desc}: accepted but not counted once and forwarded unchanged"));
+            }
+            if valid {
+                match bitcoin::consensus::deserialize::<bitcoin::Transaction>(&payload) {
+                    Ok(t) if bitcoin::consensus::serialize(&t) == payload => {}
+                    _ => out.fail(format!("{desc}: accepted payload does not round-trip")),
+                }
+            }
+        }
+        Ok(Err(_)) => {
+            if valid {
+                out.fail(format!("{desc}: a well-formed transaction was refused"));
+            }
+            if !sent.is_empty() || count_after != count_before {
+                out.fail(format!("{desc}: a rejected payload was forwarded or counted"));
+            }
+        }
+    }
+    out
+}
